@@ -2,7 +2,7 @@ SPECIFICATION TSpec
 CONSTANTS
   Sets = {"A", "B"}
   Perms = {"PA", "PB"}
-  Deltas = {"d1", "d2", "d3", "d4", "d5"}
+  Deltas = {"d1", "d2", "d3", "d4", "d5", "d6", "d7", "d8"}
   Mech = {"stubs", "pos", "order", "ovl"}
   MaxLen = 64
 INVARIANT C06_Defined
